@@ -324,8 +324,8 @@ def capability_flow(chk, facts):
                    sample={"node": node, "capability": show(e), "guards": sorted(set(guards)), "bounds": [show(b) for _, b in bs]})
         chk.ob(rule, "%s:paths" % node, w.paths >= 3 and nres >= 2 and not w.undecided, "%s arm: %d paths through the closure tree, %d successful answers, undecided: %s" % (node, w.paths, nres, w.undecided or "none"),
                where=f.where(), fn=f.name, sample={"node": node, "paths": w.paths, "results": nres})
-    chk.floor(rule, "operand environments", total_env, 13)
-    chk.floor(rule, "successful answers", total_res, 53)
+    chk.floor(rule, "operand environments", total_env, 12)
+    chk.floor(rule, "successful answers", total_res, 48)
 
 
 def optional_guard(chk, facts):
